@@ -45,7 +45,8 @@ class C01Machine(Machine):
         "probe_equals_prefix", "probe_one_short", "split_delivery", "dup_rejected",
         "confluence_group", "chain_parts", "multi_char_delimiter", "non_bmp_probe_matched",
         "piece_carrier_canonical", "piece_carrier_synonym", "piece_carrier_via_uri",
-        "bulk_via_ctor", "bulk_via_epm", "bulk_via_priority", "bulk_via_reverse", "large_owner_map", "derived_view_sub", "derived_view_chain_self",
+        "bulk_via_ctor", "bulk_via_epm", "bulk_via_priority", "bulk_via_reverse", "large_owner_map", "derived_view_sub", "derived_view_chain_self", "derived_view_rewire", "derived_view_remap_uri",
+        "derived_view_remap_curie",
     ]
 
     @classmethod
@@ -165,7 +166,19 @@ class C01Machine(Machine):
             tail.append({"op": "derived_view", "kind": "sub", "schedule": k,
                          "prefixes": [p for p in allp if rng.random() < 0.6]})
         if rng.random() < 0.2:
-            tail.append({"op": "derived_view", "kind": "chain_self", "schedule": k})
+            tail.append({"op": "derived_view", "kind": "chain_self", "schedule": k,
+                         "case_sensitive": rng.random() < 0.5})
+        if rng.random() < 0.25 and recs:
+            # a converter produced by a reconciliation function: C01 must hold over ITS OWN records
+            r0 = rng.choice(recs)
+            kind2 = rng.choice(["rewire", "remap_uri", "remap_curie"])
+            if kind2 == "rewire":
+                mapping = [[rng.choice([r0["prefix"], *r0["prefix_synonyms"]]), rng.choice(cfg["uri_pool"] + ["n:9/"])]]
+            elif kind2 == "remap_uri":
+                mapping = [[rng.choice([r0["uri_prefix"], *r0["uri_prefix_synonyms"]]), rng.choice(cfg["uri_pool"] + ["n:9/"])]]
+            else:
+                mapping = [[r0["prefix"], rng.choice(cfg["curie_pool"] + ["new9"])]]
+            tail.append({"op": "derived_view", "kind": kind2, "mapping": mapping, "schedule": k})
         # interleave the later pieces at seeded positions after their head
         for piece in later:
             key = piece["prefix"] if "prefix" in piece else piece["record"]["prefix"]
@@ -258,11 +271,35 @@ class C01Machine(Machine):
                     for u in [r.uri_prefix, *r.uri_prefix_synonyms]:
                         owners.register(u, r.prefix)
                 site = "get_subconverter"
-            else:
-                derived = c.chain([base])
+            elif op["kind"] == "chain_self":
+                try:
+                    derived = c.chain([base], case_sensitive=op.get("case_sensitive", True))
+                except Exception:  # noqa: BLE001 - e.g. records bridged up to case: C09's business
+                    self.event("derived_view_rejected")
+                    return {"derived_view": op["kind"], "raised": True}
                 owners = OwnerMap()
-                owners.owners = dict(base_owners.owners)
+                if op.get("case_sensitive", True):
+                    owners.owners = dict(base_owners.owners)     # chain([c]) is equivalent to c
+                else:
+                    for r in derived.records:                     # records equal up to case were merged
+                        for u in [r.uri_prefix, *r.uri_prefix_synonyms]:
+                            owners.register(u, r.prefix)
                 site = "chain"
+            else:
+                from curies import reconciliation
+
+                fn = {"rewire": reconciliation.rewire, "remap_uri": reconciliation.remap_uri_prefixes,
+                      "remap_curie": reconciliation.remap_curie_prefixes}[op["kind"]]
+                try:
+                    derived = fn(base, {k: v for k, v in op["mapping"]})
+                except Exception:  # noqa: BLE001 - which remappings are rejected is C11/C12's business
+                    self.event("derived_view_rejected")
+                    return {"derived_view": op["kind"], "raised": True}
+                owners = OwnerMap()
+                for r in derived.records:
+                    for u in [r.uri_prefix, *r.uri_prefix_synonyms]:
+                        owners.register(u, r.prefix)
+                site = op["kind"]
             self.conv, self.owners = derived, owners
             try:
                 self.focus = []
